@@ -502,15 +502,15 @@ theorem decode_when_header_fails (s : St) (e : Err) (he : s.q.err = none) (hh : 
 def Small (l : List Nat) : Prop := IsBytes l ∧ l.length < 4294967296
 
 def OpSmall : Op → Prop
-  | .reset _ b => Small b
+  | .reset o b => Small b ∧ FacOK o.fac
   | _ => True
 
-theorem Small.inv_fresh {o : Opts} {l : List Nat} (h : Small l) : Inv (St.fresh o l) :=
-  ⟨h.1, DefsOK.empty, (by decide : (0 : Nat) < 4294967296)⟩
+theorem Small.inv_fresh {o : Opts} {l : List Nat} (h : Small l) (hf : FacOK o.fac) : Inv (St.fresh o l) :=
+  ⟨h.1, DefsOK.empty, (by decide : (0 : Nat) < 4294967296), hf⟩
 
 /-- the simulation relation between the decoder object and the specification's bookkeeping -/
 def Sim (a : Api) (p : Spec) : Prop :=
-  a.whole = p.whole ∧ Small p.whole ∧ Small p.cur ∧
+  a.whole = p.whole ∧ (Small p.whole ∧ FacOK p.o.fac) ∧ Small p.cur ∧
   match p.ph with
   | .start => a.d = p.st ∧ ((a.n == 0) = p.atStart)
   | .header => headerOnce p.st = .ok a.d ∧ a.n ≠ 0
@@ -524,12 +524,12 @@ def Sim (a : Api) (p : Spec) : Prop :=
 def Meets (r : Api × Out × List Event) (d : Option (Out × List Event)) : Prop :=
   ∀ x, d = some x → (r.2.1, r.2.2) = x
 
-theorem sim_reset (a : Api) (p : Spec) (o : Opts) (b : List Nat) (hb : Small b) :
+theorem sim_reset (a : Api) (p : Spec) (o : Opts) (b : List Nat) (hb : Small b ∧ FacOK o.fac) :
     Sim (step a (.reset o b)).1 (specStep p (.reset o b)).1 ∧ Meets (step a (.reset o b)) (specStep p (.reset o b)).2 := by
   have hs : specStep p (.reset o b) = (Spec.fresh o b, some (.done, [])) := by
     unfold specStep; cases p.ph <;> rfl
   rw [hs]
-  refine ⟨⟨rfl, hb, hb, ?_⟩, ?_⟩
+  refine ⟨⟨rfl, hb, hb.1, ?_⟩, ?_⟩
   · show (_ ∧ _)
     exact ⟨rfl, rfl⟩
   · intro x hx; cases hx; rfl
@@ -652,12 +652,12 @@ theorem stepDecode_kind (s : St) : (stepDecode s).2.1.isDecodeKind := by
 
 /-- after a `Decode` whose state and result are the fresh decoder's (`pre` listener calls made before by a peek) -/
 theorem sim_after_decode (a : Api) (p : Spec) (pre evs' : List Event) (s' : St) (out : Out)
-    (hw : a.whole = p.whole) (hsw : Small p.whole) (hsc : Small p.cur)
+    (hw : a.whole = p.whole) (hsw : Small p.whole ∧ FacOK p.o.fac) (hsc : Small p.cur)
     (hfresh : stepDecode p.st = (s', out, pre ++ evs'))
     (hn : a.n ≠ 0 ∨ a.d.rest = p.cur) :
     Sim (a.advance s') (specDecode p pre.length none).1 ∧
       Meets (a.advance s', out, evs') (specDecode p pre.length none).2 := by
-  have hg := stepDecode_good p.st hsc.inv_fresh
+  have hg := stepDecode_good p.st (hsc.inv_fresh hsw.2)
   have hk := stepDecode_kind p.st
   rw [hfresh] at hg hk
   obtain ⟨hnp, hnh, hinv, herr⟩ := hg
@@ -669,7 +669,7 @@ theorem sim_after_decode (a : Api) (p : Spec) (pre evs' : List Event) (s' : St) 
   cases out with
   | fit f =>
     simp only
-    have hf := stepDecode_fit p.st s' f _ hsc.inv_fresh rfl hfresh
+    have hf := stepDecode_fit p.st s' f _ (hsc.inv_fresh hsw.2) rfl hfresh
     refine ⟨hw, hsw, ⟨hf.2.2.1, by have := hf.2.1; rw [Spec.st_rest] at this; have := hsc.2; show s'.rest.length < _; omega⟩, ?_⟩
     show (_ ∧ _)
     refine ⟨hf.1, ?_⟩
@@ -701,12 +701,12 @@ theorem le32_lt (b : List Nat) (h : IsBytes b) : le32 b < 4294967296 := by
   omega
 
 /-- the header of a new decoder on `l`: what a successful `decodeFileHeaderOnce` leaves -/
-theorem header_fresh (o : Opts) (l : List Nat) (s1 : St) (hs : IsBytes l) (h : headerOnce (St.fresh o l) = .ok s1) :
+theorem header_fresh (o : Opts) (l : List Nat) (s1 : St) (hs : IsBytes l) (hfac : FacOK o.fac) (h : headerOnce (St.fresh o l) = .ok s1) :
     s1.q.cur = 0 ∧ s1.q.hdr.dataSize < 4294967296 ∧ s1.rest.length < l.length ∧ s1.o = o ∧ s1.look = {} ∧
       s1.q.fileId = none := by
   unfold headerOnce at h
   simp only [St.fresh, Bool.false_eq_true, if_false] at h
-  have hi : Inv (St.fresh o l) := ⟨hs, DefsOK.empty, (by decide : (0 : Nat) < 4294967296)⟩
+  have hi : Inv (St.fresh o l) := ⟨hs, DefsOK.empty, (by decide : (0 : Nat) < 4294967296), hfac⟩
   have hh := decodeFileHeader_sat (St.fresh o l) hi
   simp only [St.fresh] at hh
   cases hr : decodeFileHeader { o := o, rest := l } with
@@ -764,14 +764,14 @@ theorem stepDiscard_header_err (s : St) (he : s.q.err = none) (e : Err) (h : hea
 theorem noChk_fresh (o : Opts) (l : List Nat) : noChk (St.fresh o l) = St.fresh { o with chk := false } l := rfl
 
 /-- `Discard` on a new decoder: either the header fails, or the stream ends early, or the decoder is as new behind the sequence -/
-theorem discard_fresh (o : Opts) (l : List Nat) (hs : IsBytes l) :
+theorem discard_fresh (o : Opts) (l : List Nat) (hs : IsBytes l) (hfac : FacOK o.fac) :
     (∃ e s', stepDiscard (St.fresh o l) = (s', .err e, []) ∧ s'.q.err = some e) ∨
     (∃ s1 : St, headerOnce (St.fresh { o with chk := false } l) = .ok s1 ∧
       stepDiscard (St.fresh o l) = (St.fresh o (s1.rest.drop (s1.q.hdr.dataSize + 2)), .done, []) ∧
       s1.q.hdr.dataSize + 2 ≤ s1.rest.length) := by
   cases hh : headerOnce (St.fresh { o with chk := false } l) with
   | ok s1 =>
-    have hf := header_fresh _ l s1 hs hh
+    have hf := header_fresh _ l s1 hs (by exact hfac) hh
     have heq := stepDiscard_eq (St.fresh o l) s1 rfl (by rw [noChk_fresh]; exact hh)
     have hsp := discardTail_spec o.chk s1 (by rw [hf.1]; omega) hf.2.1
     simp only [hf.1, Nat.sub_zero] at hsp
@@ -801,22 +801,22 @@ theorem discard_fresh (o : Opts) (l : List Nat) (hs : IsBytes l) :
     simp only [Prod.mk.injEq] at hsd
     exact ⟨e, x, by rw [hsd.1.1, hsd.1.2], hsd.2⟩
   | panic =>
-    have := headerOnce_sat (St.fresh { o with chk := false } l) ⟨hs, DefsOK.empty, (by decide : (0 : Nat) < 4294967296)⟩ rfl
+    have := headerOnce_sat (St.fresh { o with chk := false } l) ⟨hs, DefsOK.empty, (by decide : (0 : Nat) < 4294967296), hfac⟩ rfl
     rw [hh] at this; exact this.elim
   | hang =>
-    have := headerOnce_sat (St.fresh { o with chk := false } l) ⟨hs, DefsOK.empty, (by decide : (0 : Nat) < 4294967296)⟩ rfl
+    have := headerOnce_sat (St.fresh { o with chk := false } l) ⟨hs, DefsOK.empty, (by decide : (0 : Nat) < 4294967296), hfac⟩ rfl
     rw [hh] at this; exact this.elim
 
 
 /-- `Discard` from inside the data window (after peeks) ends where a new decoder's `Discard` of the sequence ends -/
-theorem discard_mid (o : Opts) (l : List Nat) (hs : IsBytes l) (s1 s : St) (c : List Nat)
+theorem discard_mid (o : Opts) (l : List Nat) (hs : IsBytes l) (hfac : FacOK o.fac) (s1 s : St) (c : List Nat)
     (hh : headerOnce (St.fresh o l) = .ok s1) (hr : s1.rest = c ++ s.rest) (hcur : s.q.cur = c.length)
     (hle : s.q.cur ≤ s.q.hdr.dataSize) (hhdr : s.q.hdr = s1.q.hdr) (ho : s.o = o) (he : s.q.err = none)
     (hd : s.q.hdrDone = true) :
     (stepDiscard s).2 = (stepDiscard (St.fresh o l)).2 ∧
       ((stepDiscard s).2.1 = .done → (stepDiscard s).1 = (stepDiscard (St.fresh o l)).1) ∧
       (∀ e, (stepDiscard s).2.1 = .err e → (stepDiscard s).1.q.err = some e) := by
-  have hf := header_fresh o l s1 hs hh
+  have hf := header_fresh o l s1 hs hfac hh
   have e1 := stepDiscard_eq (St.fresh o l) (noChk s1) rfl (headerOnce_noChk _ _ hh)
   have e2 := stepDiscard_eq s (noChk s) he (headerOnce_done (noChk s) hd he)
   rw [e1, e2, ho]
@@ -863,7 +863,7 @@ theorem discard_mid (o : Opts) (l : List Nat) (hs : IsBytes l) (s1 s : St) (c : 
 
 
 theorem sim_after_discard (a : Api) (p : Spec) (s' : St) (out : Out)
-    (hw : a.whole = p.whole) (hsw : Small p.whole) (hsc : Small p.cur)
+    (hw : a.whole = p.whole) (hsw : Small p.whole ∧ FacOK p.o.fac) (hsc : Small p.cur)
     (hout : (stepDiscard p.st).2 = (out, []))
     (hdone : out = .done → s' = (stepDiscard p.st).1)
     (herr : ∀ e, out = .err e → s'.q.err = some e)
@@ -877,7 +877,7 @@ theorem sim_after_discard (a : Api) (p : Spec) (s' : St) (out : Out)
   subst ho he
   simp only
   refine ⟨?_, by intro x hx; cases hx; rfl⟩
-  rcases discard_fresh p.o p.cur hsc.1 with ⟨e, sE, h1, h2⟩ | ⟨s1, hh, h1, hlen⟩
+  rcases discard_fresh p.o p.cur hsc.1 hsw.2 with ⟨e, sE, h1, h2⟩ | ⟨s1, hh, h1, hlen⟩
   · have : stepDiscard p.st = (sE, .err e, []) := h1
     rw [hsd] at this
     simp only [Prod.mk.injEq] at this
@@ -891,9 +891,9 @@ theorem sim_after_discard (a : Api) (p : Spec) (s' : St) (out : Out)
     subst ho
     have hs' := hdone rfl
     subst hs'
-    have hf := header_fresh _ p.cur s1 hsc.1 hh
+    have hf := header_fresh { p.o with chk := false } p.cur s1 hsc.1 hsw.2 hh
     have hi1 : IsBytes s1.rest := by
-      have := headerOnce_sat (St.fresh { p.o with chk := false } p.cur) hsc.inv_fresh rfl
+      have := headerOnce_sat (St.fresh { p.o with chk := false } p.cur) (hsc.inv_fresh hsw.2) rfl
       rw [hh] at this
       exact this.1.1
     have hlt : (List.drop (s1.q.hdr.dataSize + 2) s1.rest).length < p.cur.length := by
@@ -923,7 +923,7 @@ theorem specStep_decode_alive (p : Spec) (k : Nat) (c : Bool) (hc : c = false)
 
 /-- `Decode` / `DecodeWithContext` (live context) in a phase where the decoder is alive -/
 theorem sim_decode_alive (a : Api) (p : Spec) (pre : List Event) (c : Bool) (hc : c = false)
-    (hw : a.whole = p.whole) (hsw : Small p.whole) (hsc : Small p.cur)
+    (hw : a.whole = p.whole) (hsw : Small p.whole ∧ FacOK p.o.fac) (hsc : Small p.cur)
     (hph : p.ph = .start ∧ pre.length = 0 ∨ p.ph = .header ∧ pre.length = 0 ∨ ∃ l, p.ph = .fileId pre.length l)
     (hfresh : stepDecode p.st = ((stepDecode a.d).1, (stepDecode a.d).2.1, pre ++ (stepDecode a.d).2.2))
     (he : a.d.q.err = none) (hn : a.n ≠ 0 ∨ a.d.rest = p.cur) :
@@ -942,7 +942,7 @@ theorem sim_decode_alive (a : Api) (p : Spec) (pre : List Event) (c : Bool) (hc 
   exact ⟨h1, h1⟩
 
 /-- `DecodeWithContext` with a cancelled context on a live decoder: the context error, sticky -/
-theorem sim_cancel (a : Api) (p : Spec) (hw : a.whole = p.whole) (hsw : Small p.whole) (hsc : Small p.cur)
+theorem sim_cancel (a : Api) (p : Spec) (hw : a.whole = p.whole) (hsw : Small p.whole ∧ FacOK p.o.fac) (hsc : Small p.cur)
     (hph : p.ph = .start ∨ p.ph = .header ∨ ∃ k l, p.ph = .fileId k l) (he : a.d.q.err = none) :
     Sim (step a (.decodeCtx true)).1 (specStep p (.decodeCtx true)).1 ∧
       Meets (step a (.decodeCtx true)) (specStep p (.decodeCtx true)).2 := by
@@ -958,7 +958,7 @@ theorem sim_cancel (a : Api) (p : Spec) (hw : a.whole = p.whole) (hsw : Small p.
   exact ⟨⟨hw, hsw, hsc, rfl⟩, by intro x hx; cases hx; rfl⟩
 
 /-- `CheckIntegrity` (+ re-seek) on a live decoder: whatever it met, the decoder is as new at the start of the stream -/
-theorem sim_ci (a : Api) (p : Spec) (hw : a.whole = p.whole) (hsw : Small p.whole) (hsc : Small p.cur)
+theorem sim_ci (a : Api) (p : Spec) (hw : a.whole = p.whole) (hsw : Small p.whole ∧ FacOK p.o.fac) (hsc : Small p.cur)
     (hph : p.ph = .start ∨ p.ph = .header ∨ ∃ k l, p.ph = .fileId k l) (he : a.d.q.err = none) (ho : a.d.o = p.o)
     (hi : Inv a.d) :
     Sim (step a .checkIntegrity).1 (specStep p .checkIntegrity).1 ∧
@@ -967,13 +967,13 @@ theorem sim_ci (a : Api) (p : Spec) (hw : a.whole = p.whole) (hsw : Small p.whol
     rcases hph with h | h | ⟨k, l, h⟩ <;> (unfold specStep; simp [h])
   rw [hspec]
   refine ⟨?_, by intro x hx; cases hx⟩
-  have hg := stepCheckIntegrity_good a ⟨hi, hw ▸ hsw.1⟩
+  have hg := stepCheckIntegrity_good a ⟨hi, hw ▸ hsw.1.1⟩
   show Sim (stepCheckIntegrity a).1 _
   unfold stepCheckIntegrity at hg ⊢
   simp only [he] at hg ⊢
   have fin : Sim { d := { resetSeq a.d with rest := a.whole }, whole := a.whole, n := 0 }
       { p with cur := p.whole, atStart := true, ph := .start } := by
-    refine ⟨hw, hsw, hsw, ?_⟩
+    refine ⟨hw, hsw, hsw.1, ?_⟩
     show (_ ∧ _)
     refine ⟨?_, rfl⟩
     show _ = St.fresh p.o p.whole
@@ -987,9 +987,9 @@ theorem sim_ci (a : Api) (p : Spec) (hw : a.whole = p.whole) (hsw : Small p.whol
   | hang => exact absurd rfl hg.2.1
 
 
-theorem hdr_cases (p : Spec) (hsc : Small p.cur) :
+theorem hdr_cases (p : Spec) (hsc : Small p.cur) (hsw : Small p.whole ∧ FacOK p.o.fac) :
     (∃ s1, headerOnce p.st = .ok s1) ∨ (∃ e, headerOnce p.st = .err e) := by
-  have := headerOnce_sat p.st hsc.inv_fresh rfl
+  have := headerOnce_sat p.st (hsc.inv_fresh hsw.2) rfl
   cases h : headerOnce p.st with
   | ok s1 => exact Or.inl ⟨s1, rfl⟩
   | err e => exact Or.inr ⟨e, rfl⟩
@@ -997,19 +997,19 @@ theorem hdr_cases (p : Spec) (hsc : Small p.cur) :
   | hang => rw [h] at this; exact this.elim
 
 /-- the header was read successfully from the start of the sequence: phase `header` -/
-theorem sim_to_header (a : Api) (p : Spec) (s1 : St) (hw : a.whole = p.whole) (hsw : Small p.whole) (hsc : Small p.cur)
+theorem sim_to_header (a : Api) (p : Spec) (s1 : St) (hw : a.whole = p.whole) (hsw : Small p.whole ∧ FacOK p.o.fac) (hsc : Small p.cur)
     (had : a.d = p.st) (hh : headerOnce p.st = .ok s1) :
     Sim (a.advance s1) { p with ph := .header, atStart := false } := by
   refine ⟨hw, hsw, hsc, ?_⟩
   show (_ ∧ _)
   refine ⟨hh, ?_⟩
   show a.n + (a.d.rest.length - s1.rest.length) ≠ 0
-  have := (header_fresh p.o p.cur s1 hsc.1 hh).2.2.1
+  have := (header_fresh p.o p.cur s1 hsc.1 hsw.2 hh).2.2.1
   rw [had, Spec.st_rest]
   omega
 
 /-- the header read failed at the start of the sequence: phase `peekFailed` -/
-theorem sim_to_hdrFailed (a : Api) (p : Spec) (e : Err) (s' : St) (hw : a.whole = p.whole) (hsw : Small p.whole)
+theorem sim_to_hdrFailed (a : Api) (p : Spec) (e : Err) (s' : St) (hw : a.whole = p.whole) (hsw : Small p.whole ∧ FacOK p.o.fac)
     (hsc : Small p.cur) (hh : headerOnce p.st = .err e) (hs' : s'.q.err = some e) :
     Sim (a.advance s') { p with ph := .peekFailed e 0 } := by
   have := decode_when_header_fails p.st e rfl hh
@@ -1021,7 +1021,7 @@ theorem sim_to_hdrFailed (a : Api) (p : Spec) (e : Err) (s' : St) (hw : a.whole 
   · show (stepDecode p.st).2.2.drop 0 = []
     rw [this]; rfl
 
-theorem sim_start_peekHeader (a : Api) (p : Spec) (hw : a.whole = p.whole) (hsw : Small p.whole) (hsc : Small p.cur)
+theorem sim_start_peekHeader (a : Api) (p : Spec) (hw : a.whole = p.whole) (hsw : Small p.whole ∧ FacOK p.o.fac) (hsc : Small p.cur)
     (hph : p.ph = .start) (had : a.d = p.st) :
     Sim (step a .peekHeader).1 (specStep p .peekHeader).1 ∧ Meets (step a .peekHeader) (specStep p .peekHeader).2 := by
   have hspec : specStep p .peekHeader = ((specPeekHeader p).1, some ((specPeekHeader p).2, [])) := by
@@ -1030,8 +1030,8 @@ theorem sim_start_peekHeader (a : Api) (p : Spec) (hw : a.whole = p.whole) (hsw 
   show Sim (a.advance (stepPeekHeader a.d).1) _ ∧ Meets (a.advance (stepPeekHeader a.d).1, (stepPeekHeader a.d).2.1, (stepPeekHeader a.d).2.2) _
   rw [had]
   unfold specPeekHeader
-  rcases hdr_cases p hsc with ⟨s1, hh⟩ | ⟨e, hh⟩
-  · have hp := (stepPeekHeader_after_header p.st s1 hsc.inv_fresh rfl hh).2
+  rcases hdr_cases p hsc hsw with ⟨s1, hh⟩ | ⟨e, hh⟩
+  · have hp := (stepPeekHeader_after_header p.st s1 (hsc.inv_fresh hsw.2) rfl hh).2
     rw [hp]
     exact ⟨sim_to_header a p s1 hw hsw hsc had hh, by intro x hx; cases hx; rfl⟩
   · have hp : stepPeekHeader p.st = ((failHeader p.st (Res.err e : Res St)).1, .err e, []) := by
@@ -1043,7 +1043,7 @@ theorem sim_start_peekHeader (a : Api) (p : Spec) (hw : a.whole = p.whole) (hsw 
     exact ⟨sim_to_hdrFailed a p e _ hw hsw hsc hh rfl, by intro x hx; cases hx; rfl⟩
 
 
-theorem sim_start_next (a : Api) (p : Spec) (hw : a.whole = p.whole) (hsw : Small p.whole) (hsc : Small p.cur)
+theorem sim_start_next (a : Api) (p : Spec) (hw : a.whole = p.whole) (hsw : Small p.whole ∧ FacOK p.o.fac) (hsc : Small p.cur)
     (hph : p.ph = .start) (had : a.d = p.st) (hn : (a.n == 0) = p.atStart) :
     Sim (step a .next).1 (specStep p .next).1 ∧ Meets (step a .next) (specStep p .next).2 := by
   show Sim (a.advance (stepNext (a.n == 0) a.d).1) _ ∧
@@ -1067,8 +1067,8 @@ theorem sim_start_next (a : Api) (p : Spec) (hw : a.whole = p.whole) (hsw : Smal
       unfold specStep; simp only [hph, hat]; rfl
     rw [hspec]
     unfold specPeekHeader
-    rcases hdr_cases p hsc with ⟨s1, hh⟩ | ⟨e, hh⟩
-    · have hp := (stepPeekHeader_after_header p.st s1 hsc.inv_fresh rfl hh).2
+    rcases hdr_cases p hsc hsw with ⟨s1, hh⟩ | ⟨e, hh⟩
+    · have hp := (stepPeekHeader_after_header p.st s1 (hsc.inv_fresh hsw.2) rfl hh).2
       rw [hp]
       have hm : stepNext false p.st = (s1, .bool true, []) := by
         unfold stepNext
@@ -1090,7 +1090,7 @@ theorem sim_start_next (a : Api) (p : Spec) (hw : a.whole = p.whole) (hsw : Smal
       exact ⟨sim_to_hdrFailed a p e _ hw hsw hsc hh rfl, by intro x hx; cases hx; rfl⟩
 
 /-- `PeekFileId` where the decoder computes what a new decoder computes (phases `start`, `header`) -/
-theorem sim_peekFileId_fresh (a : Api) (p : Spec) (hw : a.whole = p.whole) (hsw : Small p.whole) (hsc : Small p.cur)
+theorem sim_peekFileId_fresh (a : Api) (p : Spec) (hw : a.whole = p.whole) (hsw : Small p.whole ∧ FacOK p.o.fac) (hsc : Small p.cur)
     (hph : p.ph = .start ∨ p.ph = .header) (heq : stepPeekFileId a.d = stepPeekFileId p.st)
     (hnp : ∀ s1, headerOnce p.st = .ok s1 → peekPast (fuelOf s1) s1 = false)
     (hn : a.n ≠ 0 ∨ a.d.rest = p.cur) :
@@ -1102,9 +1102,9 @@ theorem sim_peekFileId_fresh (a : Api) (p : Spec) (hw : a.whole = p.whole) (hsw 
     Meets (a.advance (stepPeekFileId a.d).1, (stepPeekFileId a.d).2.1, (stepPeekFileId a.d).2.2) _
   rw [heq]
   unfold specPeekFileId
-  rcases hdr_cases p hsc with ⟨s1, hh⟩ | ⟨e, hh⟩
-  · have h1 := headerOnce_ok p.st s1 hsc.inv_fresh rfl hh
-    have hf := header_fresh p.o p.cur s1 hsc.1 hh
+  rcases hdr_cases p hsc hsw with ⟨s1, hh⟩ | ⟨e, hh⟩
+  · have h1 := headerOnce_ok p.st s1 (hsc.inv_fresh hsw.2) rfl hh
+    have hf := header_fresh p.o p.cur s1 hsc.1 hsw.2 hh
     have hpl := peekLoop_sat (fuelOf s1) s1 h1.1 (by simp [fuelOf])
     have hpp := hnp s1 hh
     have hstep : stepPeekFileId p.st = (match peekLoop (fuelOf s1) s1 with
@@ -1135,7 +1135,7 @@ theorem sim_peekFileId_fresh (a : Api) (p : Spec) (hw : a.whole = p.whole) (hsw 
         · have := r2.len; have := hf.2.2.1; rw [hn]; omega
     | err e =>
       simp only [fail]
-      have hd := decode_when_peek_fails p.st s1 s2 evs e hsc.inv_fresh rfl hh hpk hpp
+      have hd := decode_when_peek_fails p.st s1 s2 evs e (hsc.inv_fresh hsw.2) rfl hh hpk hpp
       refine ⟨⟨hw, hsw, hsc, ?_⟩, by intro x hx; cases hx; rfl⟩
       show (_ ∧ (stepDecode p.st).2.1 = _ ∧ (stepDecode p.st).2.2.drop evs.length = [])
       refine ⟨rfl, by rw [hd], by rw [hd]; simp⟩
@@ -1150,11 +1150,11 @@ theorem sim_peekFileId_fresh (a : Api) (p : Spec) (hw : a.whole = p.whole) (hsw 
     exact ⟨sim_to_hdrFailed a p e _ hw hsw hsc hh rfl, by intro x hx; cases hx; rfl⟩
 
 
-theorem stepDiscard_fresh_events (o : Opts) (l : List Nat) (hs : IsBytes l) : (stepDiscard (St.fresh o l)).2.2 = [] := by
-  rcases discard_fresh o l hs with ⟨e, s', h, _⟩ | ⟨s1, _, h, _⟩ <;> rw [h]
+theorem stepDiscard_fresh_events (o : Opts) (l : List Nat) (hs : IsBytes l) (hfac : FacOK o.fac) : (stepDiscard (St.fresh o l)).2.2 = [] := by
+  rcases discard_fresh o l hs hfac with ⟨e, s', h, _⟩ | ⟨s1, _, h, _⟩ <;> rw [h]
 
 /-- `Discard` in a live phase whose position is comparable with a new decoder's -/
-theorem sim_discard_alive (a : Api) (p : Spec) (hw : a.whole = p.whole) (hsw : Small p.whole) (hsc : Small p.cur)
+theorem sim_discard_alive (a : Api) (p : Spec) (hw : a.whole = p.whole) (hsw : Small p.whole ∧ FacOK p.o.fac) (hsc : Small p.cur)
     (hph : p.ph = .start ∨ p.ph = .header ∨ ∃ k, p.ph = .fileId k false)
     (hout : (stepDiscard a.d).2 = (stepDiscard p.st).2)
     (hdone : (stepDiscard a.d).2.1 = .done → (stepDiscard a.d).1 = (stepDiscard p.st).1)
@@ -1164,7 +1164,7 @@ theorem sim_discard_alive (a : Api) (p : Spec) (hw : a.whole = p.whole) (hsw : S
   have hspec : specStep p .discard = specDiscard p := by
     rcases hph with h | h | ⟨k, h⟩ <;> (unfold specStep; simp [h])
   rw [hspec]
-  have hev := stepDiscard_fresh_events p.o p.cur hsc.1
+  have hev := stepDiscard_fresh_events p.o p.cur hsc.1 hsw.2
   have h2 : (stepDiscard a.d).2 = ((stepDiscard a.d).2.1, []) := by
     rw [hout]; exact Prod.ext rfl hev
   have := sim_after_discard a p (stepDiscard a.d).1 (stepDiscard a.d).2.1 hw hsw hsc
@@ -1190,7 +1190,7 @@ theorem sim_start (a : Api) (p : Spec) (op : Op) (hph : p.ph = .start) (hs : Sim
   rw [hph] at hm
   obtain ⟨had, hn⟩ := hm
   have he : a.d.q.err = none := by rw [had]; rfl
-  have hi : Inv a.d := by rw [had]; exact hsc.inv_fresh
+  have hi : Inv a.d := by rw [had]; exact (hsc.inv_fresh hsw.2)
   have hdec := sim_decode_alive a p [] false rfl hw hsw hsc (Or.inl ⟨hph, rfl⟩) (by rw [had]; rfl) he
     (Or.inr (by rw [had]; rfl))
   cases op with
@@ -1219,12 +1219,12 @@ theorem sim_header (a : Api) (p : Spec) (op : Op) (hph : p.ph = .header) (hs : S
   have hsame : Sim a p := ⟨hw, hsw, hsc, hm⟩
   rw [hph] at hm
   obtain ⟨hh, hn⟩ := hm
-  have h1 := headerOnce_ok p.st a.d hsc.inv_fresh rfl hh
-  have hf := header_fresh p.o p.cur a.d hsc.1 hh
+  have h1 := headerOnce_ok p.st a.d (hsc.inv_fresh hsw.2) rfl hh
+  have hf := header_fresh p.o p.cur a.d hsc.1 hsw.2 hh
   have he : a.d.q.err = none := h1.2.2.2.2.1
   have hi : Inv a.d := h1.1
   have hdec := sim_decode_alive a p [] false rfl hw hsw hsc (Or.inr (Or.inl ⟨hph, rfl⟩))
-    (by rw [stepDecode_after_header p.st a.d hsc.inv_fresh rfl hh]; rfl) he (Or.inl hn)
+    (by rw [stepDecode_after_header p.st a.d (hsc.inv_fresh hsw.2) rfl hh]; rfl) he (Or.inl hn)
   cases op with
   | reset o b => exact absurd rfl (hop o b)
   | decode => exact hdec.1
@@ -1235,18 +1235,18 @@ theorem sim_header (a : Api) (p : Spec) (op : Op) (hph : p.ph = .header) (hs : S
   | peekHeader =>
     have hspec : specStep p .peekHeader = (p, some ((stepPeekHeader p.st).2.1, [])) := by unfold specStep; simp [hph]
     rw [hspec]
-    have hp := stepPeekHeader_after_header p.st a.d hsc.inv_fresh rfl hh
+    have hp := stepPeekHeader_after_header p.st a.d (hsc.inv_fresh hsw.2) rfl hh
     show Sim (a.advance (stepPeekHeader a.d).1) _ ∧ Meets (a.advance (stepPeekHeader a.d).1, (stepPeekHeader a.d).2.1, (stepPeekHeader a.d).2.2) _
     rw [hp.1, hp.2, Api.advance_same]
     exact ⟨hsame, by intro x hx; cases hx; rfl⟩
   | peekFileId =>
-    refine sim_peekFileId_fresh a p hw hsw hsc (Or.inr hph) (stepPeekFileId_after_header p.st a.d hsc.inv_fresh rfl hh) ?_ (Or.inl hn)
+    refine sim_peekFileId_fresh a p hw hsw hsc (Or.inr hph) (stepPeekFileId_after_header p.st a.d (hsc.inv_fresh hsw.2) rfl hh) ?_ (Or.inl hn)
     intro s1 hh'
     rw [hh] at hh'
     cases hh'
     exact kfPeekPast_false a he a.d h1.2.2.2.2.2.2 hnp
   | discard =>
-    have hd := discard_mid p.o p.cur hsc.1 a.d a.d [] hh rfl (by rw [hf.1]; rfl) (by rw [hf.1]; omega) rfl hf.2.2.2.1 he h1.2.2.2.1
+    have hd := discard_mid p.o p.cur hsc.1 hsw.2 a.d a.d [] hh rfl (by rw [hf.1]; rfl) (by rw [hf.1]; omega) rfl hf.2.2.2.1 he h1.2.2.2.1
     exact sim_discard_alive a p hw hsw hsc (Or.inr (Or.inl hph)) hd.1 hd.2.1 hd.2.2 (Or.inl hn)
   | next =>
     have hspec : specStep p .next = (p, some (.bool true, [])) := by unfold specStep; simp [hph]
@@ -1271,8 +1271,8 @@ theorem sim_fileId (a : Api) (p : Spec) (op : Op) (k : Nat) (lost : Bool) (hph :
   have hsame : Sim a p := ⟨hw, hsw, hsc, hm⟩
   rw [hph] at hm
   obtain ⟨s1, evs1, hh, hpk, hk, hlost, hpp, hn⟩ := hm
-  have h1 := headerOnce_ok p.st s1 hsc.inv_fresh rfl hh
-  have hf := header_fresh p.o p.cur s1 hsc.1 hh
+  have h1 := headerOnce_ok p.st s1 (hsc.inv_fresh hsw.2) rfl hh
+  have hf := header_fresh p.o p.cur s1 hsc.1 hsw.2 hh
   have hpl := peekLoop_sat (fuelOf s1) s1 h1.1 (by simp [fuelOf])
   rw [hpk] at hpl
   obtain ⟨_, hi, r2, hfid⟩ := hpl
@@ -1283,7 +1283,7 @@ theorem sim_fileId (a : Api) (p : Spec) (op : Op) (k : Nat) (lost : Bool) (hph :
   have ho : a.d.o = p.o := by rw [r2.o]; exact hf.2.2.2.1
   have hho := headerOnce_done a.d hd he
   have hdec := sim_decode_alive a p evs1 false rfl hw hsw hsc (Or.inr (Or.inr ⟨lost, by rw [hk]; exact hph⟩))
-    (decode_after_peek p.st s1 a.d evs1 hsc.inv_fresh rfl hh hpk hpp) he (Or.inl hn)
+    (decode_after_peek p.st s1 a.d evs1 (hsc.inv_fresh hsw.2) rfl hh hpk hpp) he (Or.inl hn)
   cases op with
   | reset o b => exact absurd rfl (hop o b)
   | decode => exact hdec.1
@@ -1294,7 +1294,7 @@ theorem sim_fileId (a : Api) (p : Spec) (op : Op) (k : Nat) (lost : Bool) (hph :
   | peekHeader =>
     have hspec : specStep p .peekHeader = (p, some ((stepPeekHeader p.st).2.1, [])) := by unfold specStep; simp [hph]
     rw [hspec]
-    have hp := stepPeekHeader_after_header p.st s1 hsc.inv_fresh rfl hh
+    have hp := stepPeekHeader_after_header p.st s1 (hsc.inv_fresh hsw.2) rfl hh
     have hm : stepPeekHeader a.d = (a.d, .header a.d.q.hdr, []) := by
       unfold stepPeekHeader
       rw [he]
@@ -1344,7 +1344,7 @@ theorem sim_fileId (a : Api) (p : Spec) (op : Op) (k : Nat) (lost : Bool) (hph :
         have := peekLoop_sat (fuelOf s1) s1 h1.1 (by simp [fuelOf])
         rw [hpk] at this
         exact this.2.2.1.hdr
-      have hdm := discard_mid p.o p.cur hsc.1 s1 a.d c hh rc hcur (by omega) hhdr ho he hd
+      have hdm := discard_mid p.o p.cur hsc.1 hsw.2 s1 a.d c hh rc hcur (by omega) hhdr ho he hd
       exact sim_discard_alive a p hw hsw hsc (Or.inr (Or.inr ⟨k, hph⟩)) hdm.1 hdm.2.1 hdm.2.2 (Or.inl hn)
   | next =>
     have hspec : specStep p .next = (p, some (.bool true, [])) := by unfold specStep; simp [hph]
